@@ -138,11 +138,12 @@ impl<TR: ToTokens> FnDelegationCodegen<'_, TR> {
 
         let opt_dot_await = trait_fn.opt_dot_await(span);
         let attrs = &trait_fn.attrs;
+        let fn_generic_arguments = &trait_fn.fn_generic_arguments;
 
         quote_spanned! { span=>
             #(#attrs)*
             #trait_fn_sig {
-                #opt_self_scoping #fn_ident(#opt_self_comma #(#arguments),*) #opt_dot_await
+                #opt_self_scoping #fn_ident #fn_generic_arguments(#opt_self_comma #(#arguments),*) #opt_dot_await
             }
         }
     }
